@@ -86,7 +86,9 @@ let run path =
       "c16_bound", ConnSpec.c16_bound; "c12_will", ConnSpec.c12_will;
       "c15_in_order", ConnSpec2.c15_in_order; "c15_release_intact", ConnSpec2.c15_release_intact;
       "c15_resend_order", ConnSpec2.c15_resend_order; "c15_dequeue_order", ConnSpec2.c15_dequeue_order;
-      "c14_lifecycle", ConnSpec2.c14_lifecycle ] in
+      "c14_lifecycle", ConnSpec2.c14_lifecycle;
+      "c08_popped_is_saved", ConnSpec3.c08_popped_is_saved; "c08_pubrel_after_store", ConnSpec3.c08_pubrel_after_store;
+      "c20_tokens", ConnSpec3.c20_tokens ] in
     L.iter (fun (name, f) ->
       if not (f pevs) then begin
         (* shortest failing prefix = position of the offending event *)
